@@ -388,7 +388,8 @@ class Model():
         self._validate_association(association)
 
         # Optional field for extra association data
-        association.extras = {}
+        if not hasattr(association, 'extras'):
+            association.extras = {}
 
         field_names = self.get_association_field_names(association)
 
@@ -726,7 +727,7 @@ class Model():
 
         if association.extras:
             # Add optional metadata to dict
-            association_dict['extras'] = association.extras
+            association_dict['extras'] = association.extras.as_dict()
 
         return association_dict
 
@@ -842,9 +843,13 @@ class Model():
 
         # Reconstruct the associations
         for assoc_entry in serialized_object.get('associations', []):
-            assoc = list(assoc_entry.keys())[0]
+            # Besides the association itself the entry can hold its extras
+            assoc = next(key for key in assoc_entry if key != 'extras')
             assoc_fields = assoc_entry[assoc]
             association = getattr(model.lang_classes_factory.ns, assoc)()
+
+            if 'extras' in assoc_entry:
+                association.extras = assoc_entry['extras']
 
             for field, targets in assoc_fields.items():
                 targets = targets if isinstance(targets, list) else [targets]
@@ -853,8 +858,6 @@ class Model():
                     field,
                     [model.get_asset_by_id(int(id)) for id in targets]
                 )
-
-            #TODO Properly handle extras
 
             model.add_association(association)
 
